@@ -10,7 +10,7 @@ import gtwrap.template_instantiator as ti
 from gtwrap.template_instantiator import helpers as H
 
 from harness.pipe import is_ident, IDENT_FIRST, IDENT_REST
-from vlib.trace import reached, concrete
+from vlib.trace import reached, concrete, pick
 from harness.known import kf_open
 
 import os
@@ -235,6 +235,92 @@ def c02_this(q: str, shape: int) -> bool:
     ty = (T("This", suf="&", const=True), T(q, ns=("This",)), T("vec", T("This"), ns=("std",)), T(q))[shape]
     ok = _check_type(ty, ["T"], [X])
     reached()
+    return ok
+
+
+# ---------------------------------------------------------------- every type tree of a small algebra (small-scope exhaustive)
+L_NAMES = ["T", "Key", "This"]
+L_NS = [(), ("T",), ("This",), ("ns",)]
+L_QUAL = [(False, ""), (True, "&"), (False, "*")]
+R_NAMES = ["vec", "Rebind"]
+R_NS = [("std",), ("T",), ("This",)]
+NLEAF = len(L_NAMES) * len(L_NS) * len(L_QUAL)        # 36
+NROOT = len(R_NAMES) * len(R_NS) * len(L_QUAL)        # 18
+B_REPS = [0, 4, 13, 19, 26, 35]                       # second-argument leaves (one per name x namespace family)
+
+
+def leaf(code):
+    n, r = divmod(code, len(L_NS) * len(L_QUAL))
+    ns, q = divmod(r, len(L_QUAL))
+    const, suf = L_QUAL[q]
+    return T(L_NAMES[n], ns=L_NS[ns], const=const, suf=suf)
+
+
+def leaf_claimed(code):
+    """`ns::T` / `This::T` (a parameter's spelling in a non-leading position) is not claimed either way (DESIGN 10)"""
+    ty = leaf(code)
+    return not (ty[2] == "T" and ty[1])
+
+
+def root(code, args):
+    n, r = divmod(code, len(R_NS) * len(L_QUAL))
+    ns, q = divmod(r, len(L_QUAL))
+    const, suf = L_QUAL[q]
+    return T(R_NAMES[n], *args, ns=R_NS[ns], const=const, suf=suf)
+
+
+with concrete():
+    _IC_MOD = parser.Module.parseString("namespace gt { template<T> class Cls { Cls(); }; }")
+    _IC = ti.InstantiatedClass(_IC_MOD.content[0].content[0], [mk_typename(X)])
+THIS_X = T("Cls", X, ns=("gt",))
+
+
+def _check_tree(ty):
+    node = mk_type(ty)
+    w1 = ref_cpp(ref_subst(ty, ("T",), (X,), THIS_X))
+    w2 = ref_cpp(ref_subst(ty, ("T",), (X,), THIS_X, True))
+    for with_class in (False, True):
+        try:
+            # the callers' contract: cpp_typename is InstantiatedClass.cpp_typename() (template arguments baked into the name)
+            out = H.instantiate_type(node, ["T"], [mk_typename(X)], _IC.cpp_typename(), _IC if with_class else None)
+            got = out.to_cpp()
+        except Exception as ex:
+            got = "raised %r" % ex
+        # a scoped `This::m` may be rendered `Cls<..>::m` or `gt::Cls<..>::m`, occurrence by occurrence (both name the class)
+        if got.replace("gt::Cls<ns::X>::", "Cls<ns::X>::") != w1:
+            return _fail(type=ref_cpp(ty), instantiated_class_given=with_class, got=got, want=(w1, w2))
+        if mk_type(ty).to_cpp() != node.to_cpp():
+            return _fail(type=ref_cpp(ty), problem="instantiate_type modified its argument", now=node.to_cpp())
+    return True
+
+
+def c02_all_trees(kind: int, r: int, a: int, b: int) -> bool:
+    """
+    Every type expression of a small algebra — leaves {T, Key, This} x scopes {none, T::, This::, ns::} x {plain, const&, *};
+    templated roots {std::vec, T::Rebind, This::Rebind, ...} x qualifiers with one or two such leaves as arguments —
+    through `instantiate_type`, with and without the instantiated class handed over (the static-method path):
+    equals the reference substitution; the declared node is left unmodified.
+    pre: 0 <= kind <= 2 and 0 <= r < NROOT and 0 <= a < NLEAF and 0 <= b < len(B_REPS)
+    pre: THOROUGH or kind == 0 or r % 3 == a % 3
+    post: _
+    """
+    kind, a = pick(kind, 0, 3), pick(a, 0, NLEAF)
+    ok = True
+    with concrete():
+        claimed = leaf_claimed(a)
+    if kind == 0:
+        with concrete():
+            ok = (not claimed) or _check_tree(leaf(a))
+    else:
+        r = pick(r, 0, NROOT)
+        if kind == 1:
+            with concrete():
+                ok = (not claimed) or _check_tree(root(r, [leaf(a)]))
+        else:
+            b = pick(b, 0, len(B_REPS)) if THOROUGH else (a + r) % len(B_REPS)
+            with concrete():
+                ok = (not claimed) or (not leaf_claimed(B_REPS[b])) or _check_tree(root(r, [leaf(a), leaf(B_REPS[b])]))
+    reached({"kind": kind, "root": r, "a": a} if (not ok) else None)
     return ok
 
 
